@@ -716,7 +716,8 @@ class StoryInsert(MosFile):
             raise MosMergeError(
                 f"{self.__class__.__name__} error in {self._message_label} - target story not found"
             )
-        ro_story_ids = {story.id for story in ro.stories}
+        # only the IDs are needed: listing ro.stories would also read the running order's times
+        ro_story_ids = {Story(story_tag).id for story_tag in ro.base_tag.findall('story')}
         for new_story in self.source_stories:
             if new_story.id in ro_story_ids:
                 msg = f"{self.__class__.__name__} error in {self._message_label} - story already found in running order"
@@ -1667,7 +1668,8 @@ class EAStoryInsert(ElementAction):
                 raise MosMergeError(
                     f"{self.__class__.__name__} error in {self._message_label} - target story not found"
                 )
-        ro_story_ids = {story.id for story in ro.stories}
+        # only the IDs are needed: listing ro.stories would also read the running order's times
+        ro_story_ids = {Story(story_tag).id for story_tag in ro.base_tag.findall('story')}
         for new_story in self.stories:
             if new_story.id in ro_story_ids:
                 msg = f"{self.__class__.__name__} error in {self._message_label} - story already found in running order"
